@@ -220,7 +220,15 @@ func (e *Engine) inModule(fn *ssa.Function) bool {
 	} else if fn.Object() != nil && fn.Object().Pkg() != nil {
 		path = fn.Object().Pkg().Path()
 	}
-	return path == e.modulePath || strings.HasPrefix(path, e.modulePath+"/")
+	if path == e.modulePath || strings.HasPrefix(path, e.modulePath+"/") {
+		return true
+	}
+	// other modules of the same repository (core, types, ...) count as in scope as well
+	if p := e.allPkgs[path]; p != nil && p.Module != nil && p.Module.Dir != "" {
+		root := repoRoot()
+		return p.Module.Dir == root || strings.HasPrefix(p.Module.Dir, root+"/")
+	}
+	return false
 }
 
 func (e *Engine) posStr(p token.Pos) string {
